@@ -24,3 +24,62 @@ package PVM
 //@   ensures exit: result0 == ExitContinue && result1 == instr.PC
 //@   ensures regs: forall(i, 0, 13, interp.Registers[i] == ite(i == int(instr.Dst), spec.pvm_alu(op, old(interp.Registers[instr.Dst]), old(interp.Registers[instr.Src[0]]), old(interp.Registers[instr.Src[1]]), instr.Imm[0]), old(interp.Registers[i])))
 //@   ensures frame: frame_only(interp.Registers)
+
+// ---- program well-formedness predicates (established by DeBlobProgramCode, see C03) ----
+//@ pred blockstart(p, t) = uint64(t) < uint64(len(p.Bitmasks)) && p.Bitmasks[int(t)] == 3
+//@ pred wf_code(p) = len(p.Bitmasks) == len(p.InstructionData) && len(p.Bitmasks) < 4294967296
+//@ pred wf_jt(p) = p.JumpTable.Length <= 8 && uint64(len(p.JumpTable.Data)) >= uint64(p.JumpTable.Size) * uint64(p.JumpTable.Length)
+//@ pred regs_ok(op, instr) = instr.Opcode == op && (spec.pvm_needs_dst(op) ==> instr.Dst < 13) && (spec.pvm_needs_src0(op) ==> instr.Src[0] < 13) && (spec.pvm_needs_src1(op) ==> instr.Src[1] < 13)
+
+//@ table instrMetaExecForOpcode noarg
+//@   props C01 C02 C03
+//@   spec pvm.smt2
+//@   key op uint8 0,1
+//@   requires nonnil: interp != nil && instr != nil
+//@   ensures trap: op == 0 ==> result0 == ExitPanic && result1 == instr.PC
+//@   ensures fallthrough: op == 1 ==> result0 == ExitContinue && result1 == instr.PC
+//@   ensures frame: frame_only()
+
+// invalid opcodes behave as trap (A.19/A.20: c_i is replaced by 0 when not a valid opcode)
+//@ table instrMetaExecForOpcode invalid
+//@   props C01 C03
+//@   spec pvm.smt2
+//@   key op uint8 2..9,11..19,21..29,34..39,41..49,63..69,74..79,91..99,112..119,162..169,176..179,181..189,231..255
+//@   requires nonnil: interp != nil && instr != nil
+//@   ensures trap: result0 == ExitPanic && result1 == instr.PC
+//@   ensures frame: frame_only()
+
+// ecalli: exit reason "host call" carrying the full immediate nu_X
+//@ table instrMetaExecForOpcode ecalli
+//@   props C01 C07
+//@   spec pvm.smt2
+//@   key op uint8 10
+//@   requires nonnil: interp != nil && instr != nil
+//@   ensures kind: result0.GetReasonType() == HOST_CALL
+//@   ensures id: uint64(result0) & 0x00ffffffffffffff == instr.Imm[0] && result1 == instr.PC
+//@   ensures frame: frame_only()
+
+//@ table instrMetaExecForOpcode condbranch
+//@   props C01 C02 C03
+//@   spec pvm.smt2
+//@   key op uint8 81..90,170..175
+//@   requires nonnil: interp != nil && instr != nil && interp.Program != nil
+//@   requires wf: wf_code(interp.Program) && regs_ok(op, instr)
+//@   let target = ProgramCounter(ite(op >= 170, instr.Imm[0], instr.Imm[1]))
+//@   let cond = spec.pvm_cond(op, interp.Registers[instr.Src[0]], interp.Registers[instr.Src[1]], instr.Imm[0])
+//@   ensures nottaken: !cond ==> result0 == ExitContinue && result1 == instr.PC
+//@   ensures taken: cond && blockstart(interp.Program, target) ==> result0 == ExitContinue && result1 == target
+//@   ensures badtarget: cond && !blockstart(interp.Program, target) ==> result0 == ExitPanic && result1 == instr.PC
+//@   ensures frame: frame_only()
+
+//@ table instrMetaExecForOpcode jump
+//@   props C01 C02 C03
+//@   spec pvm.smt2
+//@   key op uint8 40,80
+//@   requires nonnil: interp != nil && instr != nil && interp.Program != nil
+//@   requires wf: wf_code(interp.Program) && regs_ok(op, instr)
+//@   let target = ProgramCounter(ite(op == 40, instr.Imm[0], instr.Imm[1]))
+//@   ensures taken: blockstart(interp.Program, target) ==> result0 == ExitContinue && result1 == target
+//@   ensures badtarget: !blockstart(interp.Program, target) ==> result0 == ExitPanic && result1 == instr.PC
+//@   ensures regs: forall(i, 0, 13, interp.Registers[i] == ite(op == 80 && i == int(instr.Dst), instr.Imm[0], old(interp.Registers[i])))
+//@   ensures frame: frame_only(interp.Registers)
